@@ -21,7 +21,7 @@ REPO_PACKAGES = ("puan", "puan.logic", "puan.logic.plog", "puan.ndarray", "puan.
 
 
 class Repo:
-    def __init__(self, root="/repo", overrides=None, numpy_mode="real"):
+    def __init__(self, root="/repo", overrides=None, numpy_mode="real", rs_model=False):
         import numpy
         self.root = root
         self.mods = {}
@@ -32,6 +32,10 @@ class Repo:
         if numpy_mode == "sym":
             from .symnd import make_numpy_namespace
             self.lib["numpy"] = make_numpy_namespace(numpy)
+        if rs_model:
+            # the compiled extension replaced by the executable form of its assumed contract A-rs1 (pyvc.rsmodel)
+            from . import rsmodel
+            self.lib["puan_rspy"] = rsmodel
         self.builtins = shim.make_builtins({"__import__": self._import})
         self.overrides = overrides or {}
         self._maz = None
